@@ -809,7 +809,8 @@ class Exec:
             if not self._check_bufnums(site, [b.bufnum]):
                 return
             n = b.bufnum
-            self._reg_bufs([b], frames, ch, var != 'noalloc')
+            self._reg_bufs([b], None if var == 'read' else frames, ch,
+                           var != 'noalloc')
             if var == 'plain':
                 exp = [('msg', [('/b_alloc', [n, frames, ch, 0])])]
             elif var == 'compfn':
@@ -874,6 +875,8 @@ class Exec:
                         'gen', 'copy_data', 'write', 'close')
         if freed and not guarded:
             return None   # use after free of an unguarded method: unspecified
+        if rec['frames'] is None and m in ('alloc', 'cue'):
+            return None
         clause = 'cmd'
         nop = lambda *a: None
         if m == 'alloc':
@@ -1136,3 +1139,718 @@ class Exec:
             rec['freed'] = True
             self.expect(site, 'free', events, [], exc)
         return site, rec['obj'].free, post
+
+
+# --------------------------------------------------------------------------
+# histories: running, bind() differential, closing and probe
+# --------------------------------------------------------------------------
+
+NO_BLOCK = (('srv', 'status'), ('srv', 'free_nodes'))
+
+
+def _is_op(it):
+    return 'k' in it
+
+
+def _has_block(items):
+    return any(not _is_op(it) for it in items)
+
+
+def _canon_events(events):
+    return [(ev['kind'], [sc.values(m) for m in ev['msgs']], ev['bad'])
+            for ev in events]
+
+
+def _flat_msgs(events):
+    return [sc.values(m) for ev in events for m in ev['msgs']]
+
+
+def run_history(env, cid, items, bound):
+    """Returns (log, violations, exec). log parallels items (+ closing ops)."""
+    env.reset(cid)
+    ex = Exec(env, cid)
+    viol = []
+
+    def run_items(items, log, depth, path):
+        for idx, it in enumerate(items):
+            here = path + [idx]
+            if _is_op(it):
+                r = ex.do(it)
+                log.append(r)
+                if not bound:
+                    for v in r['viol']:
+                        viol.append(dict(v, at=here, op=it))
+                continue
+            entry = {'block': it, 'sub': [], 'events': [], 'inside': 0,
+                     'exit_exc': None}
+            log.append(entry)
+            if not bound:
+                run_items(it['items'], entry['sub'], depth + 1, here)
+                continue
+            mark = len(env.events)
+            try:
+                with env.server.bind():
+                    run_items(it['items'], entry['sub'], depth + 1, here)
+                    entry['inside'] = len(env.events) - mark
+                    if it.get('raise'):
+                        raise _Boom()
+            except _Boom:
+                if depth > 0 and not it.get('catch', True):
+                    raise
+            except Exception as e:
+                if depth > 0:
+                    raise
+                entry['exit_exc'] = '%s: %s' % (type(e).__name__, e)
+            entry['events'] = env.events[mark:]
+
+    log = []
+    run_items(items, log, 0, [])
+    # closing: free whatever is still alive, then free_all
+    closing = []
+    st = ex.st
+    for i, n in enumerate(st.nodes):
+        if not n['freed']:
+            closing.append({'k': 'nm', 'n': i, 'm': 'free'})
+    for i, b in enumerate(st.bufs):
+        if not b['freed'] and not b['dead']:
+            closing.append({'k': 'bfree', 'b': i})
+    for i, b in enumerate(st.buses):
+        if not b['freed']:
+            closing.append({'k': 'busfree', 'b': i})
+    closing.append({'k': 'bfreeall'})
+    run_items(closing, log, 0, ['closing'])
+    if not bound:
+        for kind in ('buffer', 'control', 'audio'):
+            want = env.part[cid][kind]
+            got = env.count_free(cid, kind)
+            if got != want:
+                viol.append({
+                    'clause': 'free', 'site': kind,
+                    'key': 'C17.free:%s-ids-not-returned' % kind,
+                    'text': 'after freeing every object the %s allocator of '
+                            'client %d hands out %d single indices, a fresh '
+                            'one %d' % (kind, cid, got, want),
+                    'observed': got, 'at': ['probe'], 'op': None})
+    return log, viol, ex
+
+
+def _block_contents(it, entry):
+    """Messages a block must deliver, from the UNBOUND run: (msgs, raised)."""
+    out = []
+    for sub, lg in zip(it['items'], entry['sub']):
+        if _is_op(sub):
+            out.extend(_flat_msgs(lg['events']))
+        else:
+            m, raised = _block_contents(sub, lg)
+            if raised:
+                if sub.get('catch', True):
+                    continue
+                return [], True
+            out.extend(m)
+    if it.get('raise'):
+        return [], True
+    return out, False
+
+
+def compare_bound(items, loga, logb):
+    """Bind clause: logb (with bind) against loga (same history without)."""
+    viol = []
+
+    def v(key, text, observed, at):
+        viol.append({'clause': 'bind', 'site': key, 'key': 'C17.bind:' + key,
+                     'text': text, 'observed': observed, 'at': at,
+                     'op': None})
+    for idx, (la, lb) in enumerate(zip(loga, logb)):
+        it = items[idx] if idx < len(items) else None
+        if 'block' not in la:
+            a, b = _canon_events(la['events']), _canon_events(lb['events'])
+            if a != b:
+                v('outside-block-differs',
+                  'operation #%d outside any bind() block emitted %r, '
+                  'without the earlier bind() blocks it emits %r'
+                  % (idx, b, a), b, [idx])
+            continue
+        msgs, raised = _block_contents(it, la)
+        evs = lb['events']
+        if lb['exit_exc']:
+            v('exit-raised', 'leaving the bind() block #%d raised %s'
+              % (idx, lb['exit_exc']), lb['exit_exc'], [idx])
+            continue
+        if lb['inside']:
+            v('sent-inside-block', '%d packet(s) reached the wire while the '
+              'bind() block #%d was still running: %r'
+              % (lb['inside'], idx, _show(evs[:lb['inside']])),
+              _show(evs), [idx])
+            continue
+        if raised:
+            if evs:
+                v('sent-despite-raise', 'bind() block #%d raised but %r '
+                  'reached the wire' % (idx, _show(evs)), _show(evs), [idx])
+            continue
+        if not msgs:
+            if evs and not (len(evs) == 1 and evs[0]['kind'] == 'bundle'
+                            and not evs[0]['msgs']):
+                v('not-one-bundle', 'bind() block #%d issued no command but '
+                  '%r reached the wire' % (idx, _show(evs)), _show(evs),
+                  [idx])
+            continue
+        if len(evs) != 1 or evs[0]['kind'] != 'bundle' or evs[0]['bad']:
+            v('not-one-bundle', 'bind() block #%d issued %d command(s); at '
+              'exit %r reached the wire instead of one bundle'
+              % (idx, len(msgs), _show(evs)), _show(evs), [idx])
+            continue
+        got = _flat_msgs(evs)
+        if got != msgs:
+            v('order-or-content', 'bind() block #%d delivered %r; issued '
+              '(same history without bind) %r' % (idx, got, msgs), got,
+              [idx])
+    return viol
+
+
+def check_history(env, case):
+    """case: {'cid', 'items'} -> (violations, number of events)."""
+    items, cid = case['items'], case['cid']
+    loga, viol, _ = run_history(env, cid, items, False)
+    nev = sum(len(l['events']) for l in loga if 'block' not in l)
+    if _has_block(items):
+        logb, _, _ = run_history(env, cid, items, True)
+        viol = viol + compare_bound(items, loga, logb)
+    return viol, nev
+
+
+# --------------------------------------------------------------------------
+# generating histories
+# --------------------------------------------------------------------------
+
+SYNTH_ARGS = ['none', 'empty', 'pair', 'pairs', 'index', 'list', 'nested',
+              'tuple', 'dict', 'bus', 'buslist', 'mapstr', 'abusmap', 'buf',
+              'dictobj']
+SET_ARGS = ['empty', 'pair', 'pairs', 'index', 'list', 'nested', 'tuple',
+            'bus', 'buslist', 'mapstr', 'abusmap', 'buf', 'dictpos']
+FIXTURE = [
+    {'k': 'new', 'cls': 'Group', 'ctor': 'init', 'act': 'addToHead',
+     'tgt': ['none']},
+    {'k': 'new', 'cls': 'Synth', 'ctor': 'init', 'act': 'addToTail',
+     'tgt': ['node', 0], 'args': 'pair'},
+    {'k': 'bus', 'rate': 'control', 'ch': 2},
+    {'k': 'bus', 'rate': 'audio', 'ch': 2},
+    {'k': 'buf', 'v': 'plain'},
+    {'k': 'bufc', 'n': 2},
+]
+
+
+class Mirror:
+    """What the generator needs to know about the state a history builds."""
+
+    def __init__(self):
+        self.nodes = []   # class names
+        self.bufs = []    # {'n', 'freed', 'dead', 'frames'}
+        self.buses = []   # {'rate', 'ch', 'freed'}
+
+    def apply(self, op):
+        k = op['k']
+        if k == 'new':
+            if op['ctor'] == 'grain':
+                return
+            if op['tgt'][0] in ('node', 'int') and op['tgt'][1] >= len(
+                    self.nodes):
+                return
+            if op['ctor'] in ('replace_same',) or (
+                    op['ctor'] == 'conv' and op['cls'] == 'Synth'
+                    and op['act'] == 'addReplace'):
+                if op['tgt'][0] != 'node':
+                    return
+            self.nodes.append(op['cls'])
+        elif k == 'buf':
+            self.bufs.append({'n': 1, 'freed': 0, 'dead': False,
+                              'frames': op['v'] != 'read'})
+        elif k == 'bufc':
+            self.bufs.append({'n': op['n'], 'freed': 0, 'dead': False,
+                              'frames': True})
+        elif k == 'bfree':
+            if op['b'] < len(self.bufs) and not self.bufs[op['b']]['dead']:
+                self.bufs[op['b']]['freed'] += 1
+        elif k == 'bfreeall':
+            for b in self.bufs:
+                if not b['freed']:
+                    b['dead'] = True
+        elif k == 'bus':
+            self.buses.append({'rate': op['rate'], 'ch': op['ch'],
+                               'freed': False})
+        elif k == 'busfree':
+            if op['b'] < len(self.buses):
+                self.buses[op['b']]['freed'] = True
+
+    def _sel(self, seq, preds):
+        out = []
+        for p in preds:
+            for i, x in enumerate(seq):
+                if p(x):
+                    if i not in out:
+                        out.append(i)
+                    break
+        if seq and len(seq) - 1 not in out:
+            out.append(len(seq) - 1)
+        return out
+
+    def node_sel(self):
+        return self._sel(self.nodes, [lambda c: c != 'Synth',
+                                      lambda c: c == 'Synth'])
+
+    def first_group(self):
+        for i, c in enumerate(self.nodes):
+            if c != 'Synth':
+                return i
+        return None
+
+    def buf_sel(self):
+        return [i for i in self._sel(self.bufs, [
+            lambda b: b['n'] == 1 and not b['dead'],
+            lambda b: b['n'] > 1 and not b['dead']])
+            if not self.bufs[i]['dead']]
+
+    def bus_sel(self):
+        return self._sel(self.buses, [lambda b: b['rate'] == 'control',
+                                      lambda b: b['rate'] == 'audio'])
+
+    def has_live(self, rate):
+        return any(b['rate'] == rate and not b['freed'] for b in self.buses)
+
+    def has_live_buf(self):
+        return any(not b['freed'] and not b['dead'] for b in self.bufs)
+
+    def args_ok(self, var):
+        if var in ('bus', 'buslist', 'mapstr'):
+            return self.has_live('control')
+        if var == 'abusmap':
+            return self.has_live('audio')
+        if var == 'buf':
+            return self.has_live_buf()
+        if var == 'dictobj':
+            return self.has_live('control') and self.has_live_buf()
+        return True
+
+
+def gen_ops(mi, full):
+    """Applicable operations in the state described by ``mi``."""
+    ops = []
+    nsel = mi.node_sel()
+    fg = mi.first_group()
+    tgts = [['srv'], ['none'], ['int', -1]]
+    tgts += [['node', i] for i in nsel] + [['int', i] for i in nsel]
+    sargs = [a for a in SYNTH_ARGS if mi.args_ok(a)]
+    k = 0
+    if full:
+        for cls in ('Synth', 'Group', 'ParGroup'):
+            for act in ACTIONS:
+                for tgt in tgts:
+                    for ctor in ('init', 'conv'):
+                        op = {'k': 'new', 'cls': cls, 'ctor': ctor,
+                              'act': act, 'tgt': tgt}
+                        if cls == 'Synth':
+                            if ctor == 'conv' and act == 'addReplace' \
+                                    and tgt[0] != 'node':
+                                continue
+                            op['args'] = sargs[k % len(sargs)]
+                            k += 1
+                        ops.append(op)
+        for a in sargs:
+            ops.append({'k': 'new', 'cls': 'Synth', 'ctor': 'init',
+                        'act': 'addToHead', 'tgt': ['none'], 'args': a})
+        for ctor in ('paused', 'grain'):
+            for act in ACTIONS:
+                for tgt in [['none'], ['srv']] + [['node', i] for i in nsel]:
+                    ops.append({'k': 'new', 'cls': 'Synth', 'ctor': ctor,
+                                'act': act, 'tgt': tgt,
+                                'args': sargs[k % len(sargs)]})
+                    k += 1
+        for i in nsel:
+            ops.append({'k': 'new', 'cls': 'Synth', 'ctor': 'replace_same',
+                        'act': 'addReplace', 'tgt': ['node', i],
+                        'args': 'pair'})
+    else:
+        first = nsel[0] if nsel else None
+        for cls in ('Synth', 'Group', 'ParGroup'):
+            ops.append({'k': 'new', 'cls': cls, 'ctor': 'init',
+                        'act': 'addToHead', 'tgt': ['none'], 'args': 'list'})
+            if first is not None:
+                ops.append({'k': 'new', 'cls': cls, 'ctor': 'conv',
+                            'act': 'addAfter', 'tgt': ['node', first],
+                            'args': 'dict'})
+        ops.append({'k': 'new', 'cls': 'Synth', 'ctor': 'paused',
+                    'act': 'addToTail', 'tgt': ['srv'], 'args': 'pairs'})
+    # node methods
+    for i in (nsel if full else nsel[:2]):
+        synth = mi.nodes[i] == 'Synth'
+
+        def nm(m, v=None):
+            ops.append({'k': 'nm', 'n': i, 'm': m, 'v': v})
+        for a in (SET_ARGS if full else ['pairs', 'list']):
+            if mi.args_ok(a):
+                nm('set', a)
+        for a in (('one', 'list', 'multi', 'bus', 'objlist') if full
+                  else ('multi',)):
+            if a == 'bus' and not mi.has_live('control'):
+                continue
+            if a == 'objlist' and not (mi.has_live('control')
+                                       and mi.has_live_buf()):
+                continue
+            nm('setn', a)
+        for m, rate in (('map', 'control'), ('mapa', 'audio')):
+            nm(m, 'unmap')
+            if mi.has_live(rate):
+                for a in (('bus', 'int', 'multi') if full else ('bus',)):
+                    nm(m, a)
+        for m, rate in (('mapn', 'control'), ('mapan', 'audio')):
+            if mi.has_live(rate):
+                for a in (('bus', 'int', 'multi') if full else ('bus',)):
+                    nm(m, a)
+        for a in (('one', 'multi', 'index') if full else ('multi',)):
+            nm('fill', a)
+        for a in ((None, 1.5, 0, -2) if full else (None, 1.5)):
+            nm('release', a)
+        for a in ((True, False) if full else (False,)):
+            nm('run', a)
+        nm('trace')
+        nm('query')
+        if synth:
+            for a in (('freq', 0) if full else ('freq',)):
+                nm('get', a)
+                nm('getn', a)
+        for j in (nsel[:2] if full else nsel[:1]):
+            nm('move_before', j)
+            nm('move_after', j)
+        for g in ((None, fg) if fg is not None and full else (None,)):
+            nm('move_to_head', g)
+            nm('move_to_tail', g)
+        nm('free')
+        if full:
+            nm('free_noflag')
+        if not synth:
+            nm('free_all')
+            nm('deep_free')
+    # server helpers
+    if nsel:
+        ops.append({'k': 'srv', 'm': 'reorder', 'nodes': nsel[:2],
+                    'tgt': ['node', nsel[0]], 'act': 'addAfter'})
+        if full:
+            ops.append({'k': 'srv', 'm': 'reorder', 'nodes': nsel,
+                        'tgt': ['none'], 'act': 'addToHead'})
+    ops.append({'k': 'srv', 'm': 'free_default_group'})
+    ops.append({'k': 'srv', 'm': 'dump_osc', 'code': 1})
+    ops.append({'k': 'srv', 'm': 'status'})
+    ops.append({'k': 'sdef'})
+    if full:
+        ops.append({'k': 'srv', 'm': 'free_default_groups'})
+        ops.append({'k': 'srv', 'm': 'dump_osc', 'code': 0})
+        ops.append({'k': 'srv', 'm': 'free_nodes'})
+    # buffers
+    for v in (('plain', 'compfn', 'complist', 'noalloc', 'cue', 'read')
+              if full else ('plain', 'compfn')):
+        ops.append({'k': 'buf', 'v': v})
+    for n, c in (((2, False), (3, True), (2, True)) if full
+                 else ((2, True),)):
+        ops.append({'k': 'bufc', 'n': n, 'comp': c})
+    for i in mi.buf_sel():
+        b = mi.bufs[i]
+
+        def bm(m, v=None, j=0):
+            ops.append({'k': 'bm', 'b': i, 'm': m, 'v': v, 'j': j})
+        j = b['n'] - 1
+        for m, vs in (('zero', (None, 'comp')), ('set', ('one', 'more')),
+                      ('setn', ('one', 'more')), ('fill', ('one', 'more'))):
+            for v in (vs if full else vs[:1]):
+                bm(m, v, j)
+        bm('get'), bm('getn', None, j), bm('query')
+        if full:
+            for m in ('sine1', 'sine2', 'sine3', 'cheby', 'gen', 'copy_data',
+                      'write', 'close'):
+                bm(m, None, j)
+            bm('normalize', 'w'), bm('normalize', None)
+        if not b['freed']:
+            bm('update_info')
+            if b['frames']:
+                bm('alloc')
+            if full:
+                for m in ('alloc_read', 'alloc_read_channel', 'read',
+                          'read_channel'):
+                    bm(m, None, j)
+                if b['frames']:
+                    bm('cue', None, j)
+        ops.append({'k': 'bfree', 'b': i})
+        if full:
+            ops.append({'k': 'bfree', 'b': i, 'comp': True})
+    ops.append({'k': 'bfreeall'})
+    # buses
+    for rate in ('control', 'audio'):
+        for ch in ((1, 2, 3) if full else (2,)):
+            ops.append({'k': 'bus', 'rate': rate, 'ch': ch})
+    for i in mi.bus_sel():
+        if mi.buses[i]['rate'] == 'control':
+            for m in (('set', 'setn', 'fill', 'clear', 'set_at', 'setn_at',
+                       'set_pairs', 'get', 'getn') if full
+                      else ('set', 'setn', 'fill')):
+                ops.append({'k': 'busm', 'b': i, 'm': m})
+        ops.append({'k': 'busfree', 'b': i})
+    return ops
+
+
+def _group_of(op):
+    return (op['k'], op.get('m') or op.get('ctor') or op.get('v'))
+
+
+def _blockable(op):
+    return (op['k'], op.get('m')) not in NO_BLOCK
+
+
+def mirror_after(items):
+    mi = Mirror()
+
+    def rec(items):
+        for it in items:
+            if _is_op(it):
+                mi.apply(it)
+            else:
+                rec(it['items'])
+    rec(items)
+    return mi
+
+
+def bind_variants_small(ops):
+    """All bind structures over a short operation list (len <= 2)."""
+    out = []
+    n = len(ops)
+    for i in range(n + 1):
+        for j in range(i, n + 1):
+            seg = ops[i:j]
+            if not all(_blockable(o) for o in seg):
+                continue
+            for r in (False, True):
+                out.append(ops[:i] + [{'items': seg, 'raise': r}] + ops[j:])
+    if n == 2 and all(_blockable(o) for o in ops):
+        a, b = ops
+        for r in (False, True):
+            out.append([{'items': [a, {'items': [b], 'raise': True,
+                                       'catch': True}], 'raise': r}])
+            out.append([{'items': [{'items': [a], 'raise': r, 'catch': True},
+                                   b], 'raise': False}])
+        out.append([{'items': [a, {'items': [b], 'raise': True,
+                                   'catch': False}], 'raise': False}])
+        out.append([{'items': [a, {'items': [b], 'raise': False}],
+                     'raise': False}])
+    return out
+
+
+def random_bind(ops, rng):
+    n = len(ops)
+    i = rng.randrange(n + 1)
+    j = rng.randrange(i, n + 1)
+    seg = list(ops[i:j])
+    if not all(_blockable(o) for o in seg):
+        return None
+    if len(seg) >= 2 and rng.random() < 0.4:
+        a = rng.randrange(len(seg))
+        b = rng.randrange(a, len(seg) + 1)
+        inner_raise = rng.random() < 0.5
+        catch = True
+        if inner_raise and b == len(seg) and rng.random() < 0.5:
+            catch = False
+        seg = seg[:a] + [{'items': seg[a:b], 'raise': inner_raise,
+                          'catch': catch}] + seg[b:]
+    block = {'items': seg, 'raise': rng.random() < 0.4}
+    return list(ops[:i]) + [block] + list(ops[j:])
+
+
+def random_history(rng, length, fixture):
+    items = [dict(o) for o in fixture]
+    mi = mirror_after(items)
+    ops = []
+    for _ in range(length):
+        cand = [o for o in gen_ops(mi, True)
+                if (o['k'], o.get('m')) != ('srv', 'free_nodes')]
+        groups = {}
+        for o in cand:
+            groups.setdefault(_group_of(o), []).append(o)
+        g = rng.choice(sorted(groups, key=repr))
+        op = rng.choice(groups[g])
+        ops.append(op)
+        mi.apply(op)
+    return items, ops
+
+
+# --------------------------------------------------------------------------
+# driver
+# --------------------------------------------------------------------------
+
+def _size(items):
+    n = 0
+    for it in items:
+        n += 1 if _is_op(it) else 1 + _size(it['items'])
+    return n
+
+
+def worker(cases):
+    env = Env.get()
+    out = {'n': 0, 'events': 0, 'nontrivial': 0, 'viol': {}, 'samples': []}
+    for case in cases:
+        viol, nev = check_history(env, case)
+        out['n'] += 1
+        out['events'] += nev
+        if nev:
+            out['nontrivial'] += 1
+        if len(out['samples']) < 1 and _has_block(case['items']):
+            out['samples'].append(case)
+        for v in viol:
+            lst = out['viol'].setdefault(v['key'], [])
+            lst.append({'size': _size(case['items']), 'case': case,
+                        'clause': v['clause'], 'text': v['text'],
+                        'observed': v['observed'], 'at': v['at'],
+                        'op': v['op'], 'key': v['key']})
+            lst.sort(key=lambda x: x['size'])
+            del lst[3:]
+    return out
+
+
+def _run_cases(rep, name, cases, bound, rule, exhaustive):
+    chunks = [cases[i::NPROC * 4] for i in range(NPROC * 4)]
+    chunks = [c for c in chunks if c]
+    ctx = mp.get_context('fork')
+    with cf.ProcessPoolExecutor(NPROC, mp_context=ctx) as ex:
+        results = list(ex.map(worker, chunks))
+    merged = {}
+    for r in results:
+        for key, lst in r['viol'].items():
+            merged.setdefault(key, []).extend(lst)
+    for key in sorted(merged):
+        lst = sorted(merged[key], key=lambda x: (x['size'], repr(x['case'])))
+        for x in lst[:3]:
+            inp = dict(x['case'], at=x['at'], op=x['op'])
+            rep.violation(
+                obligation='C17.' + x['clause'], what=x['text'], input=inp,
+                observed=x['observed'],
+                expected='see clause %r in the driver docstring'
+                         % x['clause'],
+                key=key, replay={'func': 'history', 'args': x['case'],
+                                 'key': key})
+    rep.bounded(
+        name=name, function='sc3.synth.node/buffer/bus/server client '
+                            'objects at main._osc_interface (NRT)',
+        bound=bound, evaluations=sum(r['n'] for r in results),
+        distinct_nontrivial=sum(r['nontrivial'] for r in results),
+        rule=rule, samples=[s for r in results for s in r['samples']][:4],
+        exhaustive=exhaustive,
+        extra={'packets_judged': sum(r['events'] for r in results)})
+
+
+def singles_cases(tier):
+    cids = (0, 1, 2, 3) if tier == 'thorough' else (0, 2)
+    cases = []
+    for fixture in (FIXTURE, []):
+        ops = gen_ops(mirror_after(fixture), True)
+        for cid in cids:
+            for op in ops:
+                cases.append({'cid': cid, 'items': fixture + [op]})
+                for var in bind_variants_small([op]):
+                    cases.append({'cid': cid, 'items': fixture + var})
+    return cases
+
+
+def pairs_cases(tier):
+    cids = (0, 1, 2, 3) if tier == 'thorough' else (0, 2)
+    cases = []
+    k = 0
+    mi0 = mirror_after(FIXTURE)
+    for op1 in gen_ops(mi0, False):
+        mi = mirror_after(FIXTURE + [op1])
+        for op2 in gen_ops(mi, False):
+            cid = cids[k % len(cids)]
+            cases.append({'cid': cid, 'items': FIXTURE + [op1, op2]})
+            vs = bind_variants_small([op1, op2])
+            if tier != 'thorough':
+                vs = [vs[(k + d * 7) % len(vs)] for d in range(3)] \
+                    if vs else []
+            for var in vs:
+                cases.append({'cid': cid, 'items': FIXTURE + var})
+            k += 1
+    return cases
+
+
+def random_cases(tier, rng):
+    n, length = (12000, 6) if tier == 'thorough' else (2500, 4)
+    cases = []
+    for _ in range(n):
+        cid = rng.randrange(4)
+        fixture = FIXTURE if rng.random() < 0.7 else []
+        ln = rng.randint(max(1, length - 2), length)
+        fix, ops = random_history(rng, ln, fixture)
+        cases.append({'cid': cid, 'items': fix + ops})
+        for _ in range(2):
+            var = random_bind(ops, rng)
+            if var is not None:
+                cases.append({'cid': cid, 'items': fix + var})
+    return cases
+
+
+def main(rep):
+    silence_sc3_logging()
+    if wants(rep, 'singles'):
+        cases = singles_cases(rep.tier)
+        _run_cases(
+            rep, 'singles', cases,
+            'every applicable operation instance (Synth/Group/ParGroup x 5 '
+            'add actions x targets {server, None, default group id, node '
+            'object, node id} x {constructor, convenience constructor}, '
+            'new_paused, grain, replace, every node / buffer / bus / server '
+            'method with its argument variants) after {empty, standard} '
+            'fixture, alone and inside every bind() placement with and '
+            'without raise; client ids %s'
+            % ('0..3' if rep.tier == 'thorough' else '0, 2'),
+            'enumerated; non-trivial = at least one packet emitted',
+            True)
+    if wants(rep, 'pairs'):
+        cases = pairs_cases(rep.tier)
+        _run_cases(
+            rep, 'pairs', cases,
+            'all ordered pairs over the reduced alphabet (one variant per '
+            'method) after the standard fixture; %s bind structures per pair '
+            '(all segments x raise, nested blocks with caught / uncaught '
+            'inner raise)' % ('all' if rep.tier == 'thorough' else '3 of the'),
+            'enumerated; second operation drawn from the state after the '
+            'first', True)
+    if wants(rep, 'random'):
+        cases = random_cases(rep.tier, rep.rng)
+        _run_cases(
+            rep, 'random', cases,
+            'random histories of length <= %d over the full alphabet after '
+            '{empty, standard} fixture, client ids 0..3, each also with 2 '
+            'random bind structures (nested, raise at random positions)'
+            % (6 if rep.tier == 'thorough' else 4),
+            'operation group (kind, method) drawn uniformly, then the '
+            'instance; seed = --seed', False)
+    rep.note('C17 left unspecified: (a) calling an unguarded Buffer method '
+             '(alloc, read, cue, update_info...) on a freed buffer; (b) '
+             'freeing members of a Buffer.new_consecutive group one by one '
+             '(documented misuse) -- groups are freed as a whole; (c) '
+             'NetAddr.send_status_msg and Server.free_nodes inside bind() '
+             '(BundleNetAddr drops /status by design); (d) dict values that '
+             'are lists (Synth(def, {"a": [1, 2]}) raises ValueError, nothing '
+             'is emitted); (e) the timetag of the bind() bundle.')
+
+
+def replay(case, rep):
+    r = case.get('replay') or {}
+    if r.get('func') != 'history':
+        return None
+    env = Env.get()
+    viol, _ = check_history(env, r['args'])
+    want = r.get('key') or case.get('key')
+    hit = [v for v in viol if v['key'] == want] or (
+        [] if want else viol)
+    for v in hit[:1]:
+        rep.violation(obligation='C17.' + v['clause'], what=v['text'],
+                      input=r['args'], observed=v['observed'], key=v['key'])
+    return not hit
+
+
+if __name__ == '__main__':
+    driver_main('C17', main, replay)
